@@ -609,6 +609,12 @@ class History:
         self.ops.append(("new", rnd_codes()))
         live.append(0)
         nobj = 1
+        if rng.random() < 0.5:
+            # a memoised evaluation before the first copy is taken
+            self.ops.append(("eval", 0) + self.rnd_eval(rng))
+            self.ops.append(("bath", 0))
+            live.append(2)
+            nobj = 3
         for _ in range(n):
             r = rng.random()
             if r < 0.12 and nobj < 7:
@@ -1238,6 +1244,161 @@ def oracle_copy_own(cls, attr, method, k):
     return h, replay_history(h)
 
 
+def oracle_eval_copy_set_original(cls, attr, method, k):
+    """evaluate on c -> Bath(op, c) -> change c.attr and evaluate on c -> the bath's copy"""
+    codes = dict(BASE[cls])
+    h = {"cls": cls, "ops": [["new", codes], ["eval", 0, method, k], ["bath", 0],
+                             ["set", 0, attr, 2], ["eval", 0, method, k], ["eval", 2, method, k],
+                             ["eval", 1, method, k]]}
+    return h, replay_history(h)
+
+
+def oracle_eval_copy_set_copy(cls, attr, method, k):
+    """evaluate on c -> Bath(op, c) -> change the copy's attr and evaluate on it -> c itself"""
+    codes = dict(BASE[cls])
+    h = {"cls": cls, "ops": [["new", codes], ["eval", 0, method, k], ["bath", 0],
+                             ["set", 2, attr, 2], ["eval", 2, method, k], ["eval", 0, method, k],
+                             ["eval", 1, method, k]]}
+    return h, replay_history(h)
+
+
+# ---------------------------------------------------------------------------
+# (v) arrays held by process tensors must come out of the getters unchanged
+# ---------------------------------------------------------------------------
+
+def pt_builders(rng):
+    """(name, builder) of small SimpleProcessTensors with explicit tensors"""
+    from . import oq
+
+    def mats(seed):
+        r = random.Random(seed)
+        tin = generic(r, (4, 4)) + 2.0 * np.eye(4)
+        tout = generic(r, (4, 4)) + 2.0 * np.eye(4)
+        return tin, tout
+
+    def rank4(seed, transforms):
+        r = random.Random(seed)
+        m = [0.3 * generic(r, (1, 2, 4, 4)) + np.eye(4).reshape(1, 1, 4, 4),
+             0.3 * generic(r, (2, 2, 4, 4)), 0.3 * generic(r, (2, 1, 4, 4))]
+        tin, tout = mats(seed + 1) if transforms else (None, None)
+        return oq.simple_pt(m, 2, dt=0.1, transform_in=tin, transform_out=tout)
+
+    def rank3(seed, transforms):
+        r = random.Random(seed)
+        m = [0.5 * generic(r, (1, 2, 4)) + 1.0, 0.5 * generic(r, (2, 2, 4)), 0.5 * generic(r, (2, 1, 4))]
+        tin, tout = mats(seed + 1) if transforms else (None, None)
+        return oq.simple_pt(m, 2, dt=0.1, transform_in=tin, transform_out=tout)
+    s0 = rng.randrange(10 ** 6)
+    return [("SimpleProcessTensor(rank-4 tensors, square transforms)", lambda: rank4(s0, True)),
+            ("SimpleProcessTensor(rank-4 tensors, no transforms)", lambda: rank4(s0 + 7, False)),
+            ("SimpleProcessTensor(rank-3 tensors, square transforms)", lambda: rank3(s0 + 13, True)),
+            ("SimpleProcessTensor(rank-3 tensors, no transforms)", lambda: rank3(s0 + 19, False))]
+
+
+def pt_observe(build):
+    """-> dict of observations on one process tensor object used repeatedly"""
+    import oqupy
+    from oqupy import operators as op
+    from . import oq
+    pt = build()
+    n = len(pt)
+    obs = {"problems": []}
+    stored0 = [snapshot(pt._mpo_tensors[k]) for k in range(n)]
+    caps0 = [snapshot(np.asarray(pt._cap_tensors[k])) for k in range(n + 1)]
+    first = [np.array(pt.get_mpo_tensor(k)) for k in range(n)]
+    second = [np.array(pt.get_mpo_tensor(k)) for k in range(n)]
+    raw = [np.array(pt.get_mpo_tensor(k, transformed=False)) for k in range(n)]
+    c1 = [np.array(pt.get_cap_tensor(k)) for k in range(n + 1)]
+    c2 = [np.array(pt.get_cap_tensor(k)) for k in range(n + 1)]
+    obs["getter_twice_identical"] = all(np.array_equal(a, b) for a, b in zip(first, second)) and \
+        all(np.array_equal(a, b) for a, b in zip(c1, c2))
+    obs["stored_unchanged"] = [snapshot(pt._mpo_tensors[k]) for k in range(n)] == stored0 and \
+        [snapshot(np.asarray(pt._cap_tensors[k])) for k in range(n + 1)] == caps0
+    sysm = oq.cheap_system()
+
+    def dyn():
+        return np.array(oqupy.compute_dynamics(system=sysm, initial_state=op.spin_dm("z+"),
+                                               process_tensor=pt, progress_type="silent").states)
+
+    def corr():
+        return np.array(oqupy.compute_correlations(
+            system=sysm, process_tensor=pt, operator_a=op.sigma("x"), operator_b=op.sigma("z"),
+            times_a=0.1, times_b=(0.1, 0.3), initial_state=op.spin_dm("z+"),
+            progress_type="silent")[1])
+    d1, d2 = dyn(), dyn()
+    obs["dynamics_twice_identical"] = bool(np.array_equal(d1, d2))
+    obs["dynamics_max_dev"] = float(np.max(np.abs(d1 - d2)))
+    try:
+        k1, k2 = corr(), corr()
+        obs["correlations_twice_identical"] = bool(np.array_equal(k1, k2))
+        obs["correlations_max_dev"] = float(np.max(np.abs(k1 - k2)))
+    except Exception as e:      # noqa: BLE001
+        obs["correlations_twice_identical"] = None
+        obs["correlations_error"] = exc_kind(e)
+    # against a freshly built equal process tensor
+    d3 = np.array(oqupy.compute_dynamics(system=sysm, initial_state=op.spin_dm("z+"),
+                                         process_tensor=build(), progress_type="silent").states)
+    obs["equals_fresh_process_tensor"] = bool(np.allclose(d2, d3, rtol=1e-10, atol=1e-12))
+    obs["stored_unchanged_after_computations"] = \
+        [snapshot(pt._mpo_tensors[k]) for k in range(n)] == stored0
+    for key in ("getter_twice_identical", "stored_unchanged", "dynamics_twice_identical",
+                "equals_fresh_process_tensor", "stored_unchanged_after_computations"):
+        if not obs[key]:
+            obs["problems"].append(key)
+    if obs["correlations_twice_identical"] is False:
+        obs["problems"].append("correlations_twice_identical")
+    obs["stored_shape"] = list(pt._mpo_tensors[1].shape)
+    return obs
+
+
+def pt_lines(res, rng, tables):
+    """real observations + model lines for every path of the getter sites"""
+    lines, jobs = [], []
+    getter = [i for i, s in enumerate(tables["arrays"])
+              if s["func"].split("#")[0] in ("SimpleProcessTensor.get_mpo_tensor",
+                                             "SimpleProcessTensor.get_cap_tensor",
+                                             "SimpleProcessTensor.get_initial_tensor")]
+    for name, build in pt_builders(rng):
+        try:
+            obs = pt_observe(build)
+        except Exception as e:      # noqa: BLE001
+            obs = {"problems": ["raises " + exc_kind(e)], "stored_shape": [2, 2, 4, 4]}
+        res.count("pt:" + name.split("(")[1].rstrip(")"))
+        shape = obs["stored_shape"]
+        n = int(np.prod(shape))
+        idx = []
+        for i in getter:
+            idx.append(len(lines))
+            lines.append("site %d 1 %s %s %s -" % (i, csv(shape), csv(np.zeros(shape).strides[k] // 8
+                                                                      for k in range(len(shape))),
+                                                 csv(range(1, n + 1))))
+        jobs.append((name, obs, idx))
+    return lines, jobs, bool(getter)
+
+
+def judge_pt(res, name, obs, answers, have_sites):
+    res.case("pt " + name, True, {"op": "pt " + name, "impl": json.dumps(obs)[:120],
+                                  "model": (answers[0] if answers else "-")[:120]})
+    if not have_sites:
+        res.disagree("no generated array site for the process-tensor getters", {"pt": name})
+        return
+    model_ok = all("| ok same=1 written0=0" in a for a in answers)
+    impl_ok = not obs["problems"]
+    if model_ok != impl_ok:
+        res.disagree("process tensor %s: implementation %s, model says the stored tensor is %s"
+                     % (name, "misbehaves: " + ", ".join(obs["problems"]) if not impl_ok else "fine",
+                        "untouched on every path" if model_ok else "written on some path"),
+                     {"pt": name, "impl": obs, "model": answers[:4]})
+
+
+def oracle_pt(name, seed):
+    for n2, build in pt_builders(random.Random(seed)):
+        if n2 == name:
+            obs = pt_observe(build)
+            return obs if obs["problems"] else None
+    return None
+
+
 def oracle_layout(name, rng_seed):
     """one API in all layouts: -> list of (layout, what) problems"""
     rng = random.Random(rng_seed)
@@ -1267,6 +1428,8 @@ def replay_case(payload):
         return bad
     if kind == "table":
         return replay_table_history(payload["history"])
+    if kind == "pt":
+        return oracle_pt(payload["process_tensor"], payload.get("seed", 0))
     if kind == "layout":
         probs = oracle_layout(payload["api"], payload.get("seed", 0))
         probs = [p for p in probs if p[0] == payload["layout"]]
@@ -1292,7 +1455,9 @@ def search(res, rng=None):
                 for method, k in METHODS[cls]:
                     for what, oracle in (("old-value-after-set", oracle_stale),
                                          ("bath-copy-follows-original", oracle_bath_copy),
-                                         ("copy-ignores-own-attribute", oracle_copy_own)):
+                                         ("copy-ignores-own-attribute", oracle_copy_own),
+                                         ("copy-after-eval-follows-original", oracle_eval_copy_set_original),
+                                         ("original-follows-copy-after-eval", oracle_eval_copy_set_copy)):
                         try:
                             h, bad = oracle(cls, attr, method, k)
                         except Exception as e:      # noqa: BLE001
@@ -1371,12 +1536,32 @@ def search(res, rng=None):
                 add("table", "table-history:%s" % func,
                     {"kind": "table", "history": h.to_json(), "observed": bad})
 
-    for sec in (section_4, section_0, section_1, section_2, section_3):
+    def section_5():
+        # (7) process tensors used repeatedly
+        seed = res.seed
+        for name, _b in pt_builders(random.Random(seed)):
+            try:
+                bad = oracle_pt(name, seed)
+            except Exception as e:      # noqa: BLE001
+                bad = {"problems": ["raises " + exc_kind(e)]}
+            res.count("search:pt")
+            if bad is not None:
+                what = ("pt-getter-changes-stored-tensor" if any("stored" in p for p in bad["problems"])
+                        else "pt-reuse-differs")
+                add("pt", "%s:%s" % (what, name),
+                    {"kind": "pt", "process_tensor": name, "seed": seed, "observed": bad,
+                     "how": "build the SimpleProcessTensor (3 steps, bond dims 1-2-2-1, random tensors "
+                            "and transforms from the seed, caps computed), call get_mpo_tensor / "
+                            "get_cap_tensor twice per step, compute_dynamics and compute_correlations "
+                            "twice; compare the stored arrays bytewise before/after and the two runs"})
+
+    for sec in (section_4, section_5, section_0, section_1, section_2, section_3):
         try:
             sec()
         except Exception as e:      # noqa: BLE001
             res.notes.append("search: %s raised %s" % (sec.__name__, exc_kind(e)))
-    order = ["table", "old-value-after-set", "bath-copy-follows-original", "layout",
+    order = ["table", "pt", "copy-after-eval-follows-original", "original-follows-copy-after-eval",
+             "old-value-after-set", "bath-copy-follows-original", "layout",
              "copy-ignores-own-attribute", "reuse", "history"]
     while any(found.get(k) for k in order):
         for k in order:
@@ -1422,7 +1607,8 @@ def correspondence(res, tier, rng):
     a_lines, a_exp, a_meta = api_lines(res, rng, tables)
     h_lines, jobs = history_cases(res, rng, tier, tables, corpus_hist)
     t_lines, t_jobs = table_cases(res, rng, tier, tables, corpus_tab)
-    send = lines + [l for l in a_lines if l is not None] + h_lines + t_lines
+    p_lines, p_jobs, have_pt_sites = pt_lines(res, rng, tables)
+    send = lines + [l for l in a_lines if l is not None] + h_lines + t_lines + p_lines
     out = fw.run_driver(PID, send)
     if len(out) != len(send):
         raise fw.Infra("driver returned %d lines for %d inputs" % (len(out), len(send)))
@@ -1449,6 +1635,9 @@ def correspondence(res, tier, rng):
         got = out[pos]
         pos += 1
         judge_table_history(res, h, line, got)
+    for name, obs, idx in p_jobs:
+        judge_pt(res, name, obs, [out[pos + j] for j in idx], have_pt_sites)
+    pos += len(p_lines)
     for key, payload in computation_reuse(res, rng, tier):
         res.disagree("re-used objects give other results than fresh equal objects: " + key, payload)
 
@@ -1474,7 +1663,10 @@ def run(tier, seed, replay):
         "ParameterizedSystem (new table, in-place edit of the same ndarray, call of get_propagators / "
         "get_propagator_derivatives / state_gradient / compute_gradient_and_dynamics): each call vs "
         "a fresh system with a fresh table holding the values the model names (1e-12), caller's "
-        "table bytes before vs after each call.  Non-trivial = reshape/shape cases of "
+        "table bytes before vs after each call.  Process tensors: SimpleProcessTensors (rank-3/4 "
+        "tensors, with/without square transforms): getters twice, compute_dynamics and "
+        "compute_correlations twice, stored arrays bytewise before/after, vs the model's verdict on "
+        "every path of the getter sites.  Non-trivial = reshape/shape cases of "
         "matching size, API cases, histories with a cache hit or a predicted stale value; distinct "
         "= distinct protocol line.")
     res.assumptions = [
